@@ -19,7 +19,7 @@ for p in props:
             "evidence_file": f"/verif/evidence/{pid}.json",
             "replay_cmd_template": f"./check {pid} --replay {{path}}",
             "engine": "sa",
-            "level_claimed": {"category": "other", "text": m["level_text"], "design_ref": m.get("design_ref", f"DESIGN.md §3 {pid}")},
+            "level_claimed": {"category": "other", "text": m["level_text"], "design_ref": m.get("design_ref", f"DESIGN.md §2 {pid}")},
             "level_note": m["level_note"],
             "technique": m["technique"],
         })
